@@ -187,6 +187,24 @@ type caOutcome struct {
 	Msg    string
 	Root   string
 	Finals []string // balances of the involved addresses, success only
+	Left   string   // Coq option Z: the sender balance the response names
+}
+
+// leftOf parses the response of a successful ChangeAssets: {"balance":"<units>"} or {}.
+func leftOf(msg string) string {
+	var m map[string]interface{}
+	if json.Unmarshal([]byte(msg), &m) != nil {
+		return "None"
+	}
+	b, ok := m["balance"].(string)
+	if !ok {
+		return "None"
+	}
+	v, err := utility.StrToBigInt(b)
+	if err != nil {
+		return "None"
+	}
+	return "Some " + zLit(v)
 }
 
 func caseVariants(r *hx.Rng, a common.Address) string {
@@ -356,7 +374,10 @@ func runCA(w *world, c caCase, mm map[string]types.TransferData, inv []common.Ad
 	}
 	snap := adb.Snapshot()
 	msg, ok := service.ChangeAssets(c.Source, m2, adb)
-	o.Ok, o.Msg = ok, msg
+	o.Ok, o.Msg, o.Left = ok, msg, "None"
+	if ok {
+		o.Left = leftOf(msg)
+	}
 	if !ok {
 		adb.RevertToSnapshot(snap) // what VMExecutor.Execute does with a failed transaction
 	}
@@ -654,6 +675,10 @@ func main() {
 			keys = append(keys, k)
 		}
 		sort.Strings(keys)
+		for k := len(keys) - 1; k > 0; k-- { // seeded order: the model sorts by itself
+			m := rng.Intn(k + 1)
+			keys[k], keys[m] = keys[m], keys[k]
+		}
 		for _, k := range keys {
 			amt := "None"
 			if v, err := utility.StrToBigInt(mm[k].Balance); err == nil {
@@ -667,7 +692,7 @@ func main() {
 				v, _ := new(big.Int).SetString(o.Finals[j], 10)
 				fl = append(fl, fmt.Sprintf("(%s, %s)", addrN(ad), zLit(v)))
 			}
-			obsL = append(obsL, fmt.Sprintf("(%s, %s)", hx.CoqBool(o.Ok), hx.CoqList(fl)))
+			obsL = append(obsL, fmt.Sprintf("(%s, %s, %s)", hx.CoqBool(o.Ok), o.Left, hx.CoqList(fl)))
 		}
 		cs.Add(fmt.Sprintf("CTransfer %s %s %s %s", addrN(src), hx.CoqList(initL), hx.CoqList(tgtL), hx.CoqList(obsL)),
 			map[string]interface{}{"site": "ChangeAssets", "case": c, "outcomes": outs})
@@ -870,9 +895,23 @@ func main() {
 		}
 		outs := map[string]int{}
 		var obs []string
+		var mvDue, mvBefore, mvAfter []string
+		mvLeft := 0
 		for rep := 0; rep < reps; rep++ {
 			adb := refWorld.fresh()
 			service.RefundManagerImpl.Add(data(), adb)
+			if rep == 0 {
+				dm := adb.GetAllRefund(refundAddress(blockHeight))
+				for k := 0; k < 8; k++ {
+					if v, ok := dm[addr(120+k)]; ok {
+						mvDue = append(mvDue, fmt.Sprintf("(%s, %s)", addrN(addr(120+k)), zLit(v)))
+					}
+					mvBefore = append(mvBefore, fmt.Sprintf("(%s, %s)", addrN(addr(120+k)), zLit(adb.GetBalance(addr(120+k)))))
+				}
+				if len(dm) != len(mvDue) {
+					res.Violate("C01/harness:unexpected-escrow-key", fmt.Sprintf("escrow holds %d entries, %d under the expected accounts", len(dm), len(mvDue)), ents)
+				}
+			}
 			var cells []string
 			for _, e := range ents {
 				v := new(big.Int).SetBytes(adb.GetData(refundAddress(e.H), e.Id.Bytes()))
@@ -894,6 +933,10 @@ func main() {
 			outs[root+"|"+strings.Join(bals, ",")+fmt.Sprintf("|left=%d/%d", nz, left)]++
 			if rep == 0 {
 				obs = cells
+				for k := 0; k < 8; k++ {
+					mvAfter = append(mvAfter, fmt.Sprintf("(%s, %s)", addrN(addr(120+k)), zLit(adb.GetBalance(addr(120+k)))))
+				}
+				mvLeft = nz
 			}
 		}
 		if len(outs) > 1 {
@@ -918,6 +961,7 @@ func main() {
 			dl = append(dl, fmt.Sprintf("(%d%%N, %s)", h, hx.CoqList(hs[h])))
 		}
 		cs.Add(fmt.Sprintf("CRefund %s %s %s", hx.CoqList(pre), hx.CoqList(dl), hx.CoqList(obs)), map[string]interface{}{"site": "refund", "entries": ents})
+		cs.Add(fmt.Sprintf("CMove %s %s %s %d%%N", hx.CoqList(mvDue), hx.CoqList(mvBefore), hx.CoqList(mvAfter), mvLeft), map[string]interface{}{"site": "CheckAndMove", "entries": ents})
 	}
 
 	// ---- L5 sub-chain reward call data ----
@@ -939,6 +983,38 @@ func main() {
 			outs[core.VerifC01GenerateCode(p2, vals, validatorIds, header())]++
 		}
 		res.Count("generateCode", "3 proposers", true)
+		{
+			var pk []string
+			for k := range props {
+				pk = append(pk, k)
+			}
+			sort.Strings(pk)
+			var pl, ml []string
+			for _, k := range pk {
+				pl = append(pl, fmt.Sprintf("(%s, %s)", hx.CoqStr(k), addrN(props[k])))
+			}
+			for _, id := range validatorIds {
+				ml = append(ml, addrN(vals[common.ToHex(id)]))
+			}
+			var variants []string
+			for k := range outs {
+				variants = append(variants, k)
+			}
+			sort.Strings(variants)
+			for _, code := range variants {
+				body := strings.TrimPrefix(code, "0x7822b9ac")
+				var words []string
+				for i := 0; i+64 <= len(body); i += 64 {
+					w, _ := new(big.Int).SetString(body[i:i+64], 16)
+					words = append(words, w.String()+"%N")
+				}
+				if len(body)%64 != 0 || !strings.HasPrefix(code, "0x7822b9ac") {
+					words = append(words, "0%N")
+				}
+				cs.Add(fmt.Sprintf("CGenCode %s %s %s %s", addrN(props[common.ToHex(header().Castor)]), hx.CoqList(pl), hx.CoqList(ml), hx.CoqList(words)),
+					map[string]interface{}{"site": "generateCode", "code": code})
+			}
+		}
 		if len(outs) > 1 {
 			var ex []string
 			for k := range outs {
